@@ -235,6 +235,20 @@ impl GTarget {
         }
     }
 
+    /// distance of x to the nearest point where the log-density stops being finite / continuous (the
+    /// support boundary, the NaN region, the cliff); infinite for the smooth targets
+    pub fn boundary_distance(&self, x: &[f64]) -> f64 {
+        let m = |it: &mut dyn Iterator<Item = f64>| it.fold(f64::INFINITY, |a, b| if b.is_nan() { 0.0 } else { a.min(b.abs()) });
+        match self.kind {
+            GKind::HalfLineLog => m(&mut x.iter().map(|v| *v)),
+            GKind::Box => m(&mut x.iter().map(|v| self.c - v.abs())),
+            GKind::SqrtEdge => m(&mut x.iter().map(|v| self.c - v)),
+            GKind::NanBeyond => (self.c - x.iter().map(|v| v * v).sum::<f64>().sqrt()).abs(),
+            GKind::Cliff => (self.c - x[0]).abs(),
+            _ => f64::INFINITY,
+        }
+    }
+
     /// finite density (> -inf, not NaN) and finite coordinates
     pub fn admissible(&self, x: &[f64]) -> bool {
         x.iter().all(|v| v.is_finite()) && self.logp(x).is_finite()
